@@ -6,7 +6,8 @@ CHECKS = {
     'C14': {
         'text': 'Hypothesis grammar of every TIMEX form of the statement (structured cases carrying the field values a correct parser must '
                 'extract) + exhaustive enumeration of the small sub-grammars + datetimes for the from_* constructors; oracle: expected '
-                'fields, round trip on fields, idempotence, canonical identity. Sampling of an infinite string domain, so exploration.',
+                'fields, round trip on fields, idempotence, canonical identity; histories of several spellings of one duration amount formatted one '
+                'after the other. Sampling of an infinite string domain, so exploration.',
         'note': NOTE,
         'technique': 'property-based testing: Hypothesis grammar strategies + round-trip/field oracle, exhaustive enumeration of finite sub-grammars',
     },
@@ -19,8 +20,8 @@ CHECKS = {
     'C02': {
         'text': 'Hypothesis rule-based state machine over a pool of (model, query, culture, options, reference) tuples: helper calls, long-lived '
                 'recognisers, threaded batches (2-8 harness threads, barrier), cache clears, permuted repetitions; reference model = answers of a '
-                'sequential caller in a fresh forked process, computed in two orders; plus a cold-cache multi-thread soak. Thread schedules are '
-                'sampled, not enumerated.',
+                'sequential caller in a fresh forked process, computed in two orders; plus a cold-cache multi-thread soak. The pool includes date-time '
+                'options x every date-time culture and references differing only in the seconds. Thread schedules are sampled, not enumerated.',
         'note': NOTE + ' Interleavings are whatever the GIL produces at a 200 microsecond switch interval.',
         'technique': 'stateful property-based testing (Hypothesis RuleBasedStateMachine) against a fresh-process reference model'},
     'C12': {
@@ -31,7 +32,8 @@ CHECKS = {
         'text': 'Finite routing table (about 55 culture strings x 16 getters x fallback x options x target culture) enumerated, plus a Hypothesis '
                 'rule-based machine that interleaves requests through fresh and long-lived recognisers, the recognize_* helpers and cache clears; '
                 'oracle = reference routing function from the statement + behaviour fingerprints of models built directly from the registered '
-                'constructors + object-identity rules for cache keys.',
+                'constructors + object-identity rules for cache keys + culture-convention probes typed into the harness (independent of the '
+                'registration table).',
         'note': NOTE, 'technique': 'stateful property-based testing (rule-based machine) + exhaustive routing table against a reference routing function'},
     'C03': {
         'text': 'Hypothesis-generated digit literals per culture (own writer for grouping/decimal marks, sign, 0-6 fraction digits, carriers incl. '
@@ -51,7 +53,8 @@ CHECKS = {
     'C06': {
         'text': 'Dates 1900-2099 written by the harness in every layout of the culture (16 English layouts, day-first numeric and month-name layouts '
                 'for es/fr/pt/it/de/nl, ISO and CJK layouts for zh) under two references each (metamorphic: result independent of the reference), '
-                'with a deterministic part for leap days, month ends and swap-sensitive days; oracle = the date itself.',
+                'with a deterministic part for leap days, month ends and swap-sensitive days and for days written as ordinals; references related to '
+                'the written date (same year/day); a concurrent part (cases evaluated on simultaneous threads); oracle = the date itself.',
         'note': NOTE, 'technique': 'property-based testing: Hypothesis date/layout/reference generators + exact-value oracle + metamorphic reference independence'},
     'C07': {
         'text': 'Exhaustive 24x60 HH:MM grid and every 12-hour spelling, Hypothesis HH:MM:SS and date+time compositions (absolute, today/tomorrow/'
@@ -73,7 +76,8 @@ CHECKS = {
     'C11': {
         'text': 'Shape oracle (stdlib date/time validity, TIMEX/value agreement, type-name agreement, min-value sentinel) applied to every entity produced '
                 'on the Specs corpus under spec and generated references, on the generated expressions of C06-C10, on an invalid-date family and on '
-                'bare-hour ranges.',
+                'bare-hour ranges, and on an enumerated period vocabulary (quarters, halves, seasons, weeks of a month, relative periods) under '
+                'boundary references.',
         'note': NOTE, 'technique': 'property-based testing: validity predicate over outputs of corpus + generated inputs'},
     'C13': {
         'text': 'Exhaustive boundary-octet IPv4 grid and per-position 0..255 sweep, Hypothesis over 2^32 / 2^128 / GUID layouts with own writers, '
@@ -86,21 +90,26 @@ CHECKS = {
         'note': NOTE, 'technique': 'property-based testing: Hypothesis generators + stdlib datetime oracle / validity predicate, watchdog for non-termination'},
     'C16': {
         'text': 'Exhaustive strings up to length 5/6 over a small alphabet for both tokenizers and exhaustive (query, phrase) pairs for the matcher, plus '
-                'Hypothesis dictionaries (list, list+ids, dict forms) and queries; oracles: token invariants, reference tokenizers, naive reference matcher.',
+                'Hypothesis dictionaries (list, list+ids, dict forms) and queries, plus generated histories on one matcher object (dictionary grown after '
+                'searches, lazily consumed and interleaved searches, searches from several threads); oracles: token invariants, reference '
+                'tokenizers, naive reference matcher.',
         'note': NOTE, 'technique': 'property-based testing: differential against reference tokenizer/naive matcher, exhaustive for tiny sizes'},
     'C18': {
         'text': 'Finite domain enumerated completely: every definition of every generated resource module is compared with what the repository\'s own '
-                'generator (run with a vendored pure-Python ruamel.yaml) produces from Patterns/*.yaml. Differential, exhaustive over the 3,777 definitions.',
+                'generator (run with a vendored pure-Python ruamel.yaml) produces from Patterns/*.yaml (3,777 definitions), with the values an independent '
+                'reading of the YAML gives, again after every model of every culture was built and used, and every banner-carrying module must have a '
+                'definition entry. Differential, exhaustive.',
         'note': NOTE + ' The generator itself is the oracle (as the property states): a change to the generator that is also regenerated into the modules is not visible to this check.',
         'technique': 'exhaustive differential enumeration against the repository\'s resource generator'},
     'C19': {
         'text': 'Finite corpus enumerated with the repository\'s own parameterisation and comparison code (pytest/xdist subprocess from the working tree with '
-                'shims); every Python-supported spec case is one case, failures become VIOLATION lines with node-id replay files.',
+                'shims); every Python-supported spec case is one case, failures become VIOLATION lines with node-id replay files; the cases are run a '
+                'second time with every test body on a fresh worker thread.',
         'note': NOTE + ' pytest, xdist and the repository test runners are trusted.',
         'technique': 'exhaustive differential enumeration of the Specs corpus through the repository test runners'},
     'C20': {
         'text': 'Every alternative of TrueRegex/FalseRegex x letter case x 40 surroundings exhaustively, plus Hypothesis strings (random case, fillers, '
-                'neutral pool, both polarities) against a polarity/span/score oracle.',
+                'neutral pool, both polarities) under seven English culture codes against a polarity/span/score oracle; a concurrent part.',
         'note': NOTE, 'technique': 'property-based testing: exhaustive alternatives x surroundings + Hypothesis sentence generator'},
 }
 _PENDING = 'check not built yet in this session (under construction; the technique applies)'
